@@ -97,8 +97,11 @@ def call (s : State) : Call → State × Res
     else
       match failAt.bind (fun w => s.emitterOf w) with
       | some bad =>
-        -- emitters before `bad` (in iteration order) are started, `bad` is removed, the observer thread is not started
-        ({ s with emitters := s.emitters.filter (fun e => e.watch != bad.watch) }, .raised "start")
+        -- emitters before `bad` (in iteration order) are started, `bad` is removed - and (repaired, D27) its watch with it:
+        -- handlers and watch entry go, as in `unschedule`; the observer thread is not started
+        ({ s with emitters := s.emitters.filter (fun e => e.watch != bad.watch),
+                  handlers := aerase bad.watch s.handlers,
+                  watches := s.watches.filter (· != bad.watch) }, .raised "start")
       | none =>
         ({ s with emitters := s.emitters.map (fun e => { e with started := true }), alive := true,
                   everStarted := true }, .ok)
@@ -145,7 +148,9 @@ def specCall (m : Spec) : Call → Spec × Res
   | .start failAt =>
     if m.everStarted then (m, .raised "RuntimeError")
     else match failAt with
-      | some w => if m.scheduled.contains w then ({ m with scheduled := m.scheduled.filter (· != w) }, .raised "start")
+      | some w => if m.scheduled.contains w then
+                    ({ m with handlers := fun x => if x = w then [] else m.handlers x,
+                              scheduled := m.scheduled.filter (· != w) }, .raised "start")
                   else ({ m with alive := true, everStarted := true }, .ok)
       | none => ({ m with alive := true, everStarted := true }, .ok)
   | .stop => ({ m with handlers := fun _ => [], scheduled := [], alive := false }, .ok)
